@@ -34,6 +34,8 @@ public class Mvn {
                     StringBuilder sb = new StringBuilder();
                     ComparableVersion zero = new ComparableVersion("0");
                     for (int i = 2; i < f.length; i++) {
+                        // 'b' marks a candidate ordered below "0" (outside the property's quantifier)
+                        if (new ComparableVersion(f[i]).compareTo(zero) < 0) { sb.append('b'); continue; }
                         sb.append(vr.containsVersion(new DefaultArtifactVersion(f[i])) ? '1' : '0');
                     }
                     r = sb.length() == 0 ? "-" : sb.toString();
